@@ -784,7 +784,26 @@ func (c *Ctx) ruleSkipShape() {
 	adjusted := ""
 	isFilename := func(v ssa.Value) bool {
 		d := P.Desc(v)
-		if !(strings.HasPrefix(d, "field(call((*go/token.FileSet).Position") && strings.Contains(d, "call((*go/ast.File).Pos; "+fileD) && strings.HasSuffix(d, "go/token.Position.Filename)")) {
+		okShape := strings.HasPrefix(d, "field(call((*go/token.FileSet).Position") && strings.Contains(d, "call((*go/ast.File).Pos; "+fileD) && strings.HasSuffix(d, "go/token.Position.Filename)")
+		if !okShape && strings.HasPrefix(d, "{") && strings.HasSuffix(d, "}") {
+			// the name itself chosen between two positions of the same file
+			okShape = true
+			for _, alt := range splitTopLevel(d[1:len(d)-1], '|') {
+				if !(strings.HasPrefix(alt, "field(call((*go/token.FileSet).Position") && strings.Contains(alt, "call((*go/ast.File).Pos; "+fileD) && strings.HasSuffix(alt, "go/token.Position.Filename)")) {
+					okShape = false
+				}
+			}
+		}
+		if !okShape && strings.HasPrefix(d, "field({") && strings.HasSuffix(d, "}.go/token.Position.Filename)") {
+			// one of several positions of the same file (the own name; the adjusted one for a cgo copy)
+			okShape = true
+			for _, alt := range splitTopLevel(strings.TrimSuffix(strings.TrimPrefix(d, "field({"), "}.go/token.Position.Filename)"), '|') {
+				if !(strings.HasPrefix(alt, "call((*go/token.FileSet).Position") && strings.Contains(alt, "call((*go/ast.File).Pos; "+fileD)) {
+					okShape = false
+				}
+			}
+		}
+		if !okShape {
 			return false
 		}
 		if !c.unadjustedPosition(v) {
@@ -796,6 +815,11 @@ func (c *Ctx) ruleSkipShape() {
 		if c.Prop == "C18" {
 			return // C18 is about where the values come from, not about which name they are applied to
 		}
+		// (found as D40) the go command analyses the copy cmd/cgo makes of a file that imports "C": that copy lives
+		// in the build cache and names its source in a //line directive - for it, and only for it, the adjusted name
+		// is the file's name
+		c.check(c.cgoNameSeen, "SKIP-SHAPE/CGO-NAME", name, P.Pos(fn.Pos()), "for a cgo copy the name tested is the one its //line directive gives",
+			"a file that imports \"C\" is judged by the name of cmd/cgo's copy in the build cache: it is never excluded by its path (and its annotations and diagnostics stay although the file is excluded)")
 		c.check(adjusted == "", "SKIP-SHAPE/OWN-NAME", name, adjusted, "the name tested is the file's own (PositionFor(file.Pos(), false).Filename)",
 			"the exclusion is decided on FileSet.Position(file.Pos()).Filename, which a //line directive before the package clause replaces: a file can rename itself into (or out of) an excluded path or a _test.go name")
 	}()
@@ -908,6 +932,48 @@ func (c *Ctx) ruleIterOne(fn *ssa.Function) {}
 // FileSet.PositionFor(p, false): the position is not subject to //line directives.
 func (c *Ctx) unadjustedPosition(v ssa.Value) bool {
 	P := c.P
+	isFor := func(q ssa.Value) bool {
+		pc := P.CallTo(q, "(*go/token.FileSet).PositionFor")
+		if pc == nil {
+			return false
+		}
+		cv, isC := constBool(pc.Call.Args[2])
+		return isC && !cv
+	}
+	// the adjusted position, for the copy cmd/cgo makes of a file only (it lives in the build cache; its //line
+	// directive names the file it was made from): computed, or assigned, under the test for such a copy
+	cgoGuarded := func(b *ssa.BasicBlock) bool {
+		return hasLit(P.BlockGuards(b), func(l Lit) bool {
+			call := litCall(l)
+			if call == nil || !l.Pos {
+				return false
+			}
+			// the test itself (a helper's answer is expanded into the conditions it stands for) ...
+			if hp := P.litCallTo(l, "strings.HasPrefix"); hp != nil {
+				return strings.HasPrefix(constArg(hp.Call.Args[1]), "// Code generated by cmd/cgo") && strings.Contains(P.Desc(hp.Call.Args[0]), "go/ast.Comment.Text)")
+			}
+			// ... or a predicate that is not looked into
+			return c.isCgoCopyPredicate(call.Call.StaticCallee())
+		})
+	}
+	isAdjustedForCgo := func(q ssa.Value, at *ssa.BasicBlock) bool {
+		var pc *ssa.Call
+		if x := P.CallTo(q, "(*go/token.FileSet).PositionFor"); x != nil {
+			if cv, isC := constBool(x.Call.Args[2]); isC && cv {
+				pc = x
+			}
+		} else if x := P.CallTo(q, "(*go/token.FileSet).Position"); x != nil {
+			pc = x
+		}
+		if pc == nil {
+			return false
+		}
+		if cgoGuarded(pc.Block()) || (at != nil && cgoGuarded(at)) {
+			c.cgoNameSeen = true
+			return true
+		}
+		return false
+	}
 	return P.RootsAll(v, func(r ssa.Value) bool {
 		var bb ssa.Value
 		for _, f := range []string{"Filename", "Line", "Column", "Offset"} {
@@ -918,29 +984,61 @@ func (c *Ctx) unadjustedPosition(v ssa.Value) bool {
 		if bb == nil {
 			return false
 		}
-		isFor := func(q ssa.Value) bool {
-			pc := P.CallTo(q, "(*go/token.FileSet).PositionFor")
-			if pc == nil {
-				return false
-			}
-			cv, isC := constBool(pc.Call.Args[2])
-			return isC && !cv
-		}
 		if a, ok := bb.(*ssa.Alloc); ok {
 			// position := fset.PositionFor(...): a local struct cell
-			vals, _, escaped := P.CellStores(a)
+			vals, stores, escaped := P.CellStores(a)
 			if escaped || len(vals) == 0 {
 				return false
 			}
-			for _, v := range vals {
-				if !P.RootsAll(v, isFor) {
+			for i, v := range vals {
+				var at *ssa.BasicBlock
+				if i < len(stores) {
+					at = stores[i].Block()
+				}
+				if !P.RootsAll(v, func(q ssa.Value) bool { return isFor(q) || isAdjustedForCgo(q, at) }) {
 					return false
 				}
 			}
 			return true
 		}
-		return P.RootsAll(bb, isFor)
+		return P.RootsAll(bb, func(q ssa.Value) bool { return isFor(q) || isAdjustedForCgo(q, nil) })
 	})
+}
+
+// isCgoCopyPredicate: fn answers true only for a file whose first comment starts with cmd/cgo's "Code generated"
+// header: every `true` it returns is the value of strings.HasPrefix(<comment text>, "// Code generated by cmd/cgo...").
+func (c *Ctx) isCgoCopyPredicate(fn *ssa.Function) bool {
+	P := c.P
+	if fn == nil || !P.IsProductFunc(fn) || len(fn.Blocks) == 0 {
+		return false
+	}
+	ok, saw := true, false
+	allInstrs(fn, func(_ *ssa.BasicBlock, ins ssa.Instruction) {
+		r, isR := ins.(*ssa.Return)
+		if !isR || len(r.Results) != 1 {
+			return
+		}
+		if cv, isC := constBool(r.Results[0]); isC {
+			if cv {
+				ok = false
+			}
+			return
+		}
+		good := false
+		for _, l := range literals(P.condFormula(r.Results[0], 0), true) {
+			if call := P.litCallTo(l, "strings.HasPrefix"); call != nil && l.Pos {
+				if strings.HasPrefix(constArg(call.Call.Args[1]), "// Code generated by cmd/cgo") && strings.Contains(P.Desc(call.Call.Args[0]), "go/ast.Comment.Text)") {
+					good = true
+				}
+			}
+		}
+		if good {
+			saw = true
+		} else {
+			ok = false
+		}
+	})
+	return ok && saw
 }
 
 // ruleExcludeConsumers (C08, eighth wave): exclude-checks has one consumer - the global tokens of the ignore set,
@@ -1112,4 +1210,24 @@ func (c *Ctx) ruleExcludeConsumers() {
 				fmt.Sprintf("the checker asks whether %v is excluded for the whole project and decides about work that reports %v as well: excluding the one removes the others (a code acts like its category, or one category like another)", ks, uncovered))
 		})
 	}
+}
+
+// splitTopLevel splits a descriptor at sep where sep is not nested in brackets of any kind.
+func splitTopLevel(s string, sep byte) []string {
+	var out []string
+	depth, start := 0, 0
+	for i := 0; i < len(s); i++ {
+		switch s[i] {
+		case '(', '{', '[':
+			depth++
+		case ')', '}', ']':
+			depth--
+		default:
+			if s[i] == sep && depth == 0 {
+				out = append(out, s[start:i])
+				start = i + 1
+			}
+		}
+	}
+	return append(out, s[start:])
 }
